@@ -324,7 +324,8 @@ def main(chk: core.Check) -> int:
                         "the Python reader runs with read_bes_raw backed by the native build of the working-tree C++ (the installed binary cannot be rebuilt)"]
     ok_gen = rc.regen(chk)
     if ok_gen:
-        chk.prove(modules=["C03", "C03a", "C03b", "C03File", "RawTie", "RawPyTie", "RawCppTie"])
+        _entry = ["EntryTie"] if core.regen_entry(chk) else []
+        chk.prove(modules=["C03", "C03a", "C03b", "C03File", "RawTie", "RawPyTie", "RawCppTie"] + _entry)
     import pybes3
     cpp_unchanged = core.run_cmd(["git", "-C", str(core.REPO), "diff", "--quiet", "631bbaa", "--", "src/pybes3/besio/cpp/raw_io.cc", "src/pybes3/besio/cpp/raw_io.hh"])[0] == 0
     cases = []
